@@ -19,7 +19,7 @@ ENGINE = {'name': 'mcodec',
          'with runtime.MemStats around Match. C06: every prefix of valid rdp/winbox streams (with trailing data, mutations, two-chunk winbox '
          'messages), each evaluated twice on fresh connections that count socket reads and are re-read afterwards. C14: per-protocol abstract '
          'messages encoded from the wire definition x every filter configuration x every single-field corruption, verdict compared with the '
-         'reference predicate; non-trivial = input reaches past the first length/magic gate. distinct = distinct case terms.',
+         'reference predicate, plus a sweep of every value 0..255 of each fixed/flag/enum byte of an RDP request (TPKT version/reserved, X.224 code/references/class, negotiation-request type/flags/length/each protocols byte, correlation-info type/flags/length/first identity byte/reserved); non-trivial = input reaches past the first length/magic gate. distinct = distinct case terms.',
  'trusted_base': ['layer4.WrapConnection + MatcherSet.Match give the matcher the preloaded prefix in matching mode (C01 covers the connection)',
                   'runtime.MemStats.TotalAlloc deltas as the allocation measure',
                   'regexp: the engine only configures anchored/unanchored literal patterns (regexp.QuoteMeta), modelled as prefix/suffix/equal/contains'],
